@@ -707,7 +707,7 @@ theorem getLinesGo_ok_len {src : List Char} {offs : List LineOffset} {end_ inden
     (h : getLinesGo src offs end_ indent keep line result mapping = .ok r) (hlt : line < end_) :
     end_ ≤ offs.length := by
   fun_induction getLinesGo src offs end_ indent keep line result mapping <;> simp_all
-  all_goals sorry
+  all_goals trace_state; sorry
 
 /-- no CR can reach a node payload built by `get_lines` from the parser's own table -/
 theorem get_lines_split_no_cr (src : List Char) (begin_ end_ indent : Nat) (keep : Bool)
@@ -733,7 +733,10 @@ theorem get_lines_split_no_cr (src : List Char) (begin_ end_ indent : Nat) (keep
     rw [if_neg (by omega)] at h
     by_cases hlt : begin_ < end_
     · exact hlen (getLinesGo_ok_len h hlt)
-    · omega
+    · -- empty range beyond the table: the loop does not run
+      rw [getLinesGo, if_neg hlt] at h
+      cases h
+      intro hc; cases hc
 
 /-- The mechanism behind C10: two texts with the same views (e.g. the LF, CR LF and CR variants of a
     document, or a document with and without its final line ending) yield the same content for every
